@@ -175,6 +175,11 @@ Bit(v, b) == (v \div b) % 2
 FlagsOnlyCleared(old, new) == old \div 4 = new \div 4 /\ Bit(new, 1) <= Bit(old, 1) /\ Bit(new, 2) <= Bit(old, 2)
 DiffAllowed(pre, post, d) ==
     LET mo == pre.mo  off == d[1] IN
+    IF pre.pt = "ohp" THEN
+        \* one-hop path = info field (8) + first hop (12) + second hop (12) at mo: the SegID and,
+        \* at the router completing the path, the second hop field
+        off \in {mo + 2, mo + 3} \cup (mo + 20)..(mo + 31)
+    ELSE
     \/ off = mo                                                   \* CurrINF | CurrHF
     \/ off \in InfoSidBytes(mo, pre.ci) \cup InfoSidBytes(mo, post.ci)
     \/ /\ \E h \in {pre.ch, post.ch} :
